@@ -34,8 +34,76 @@ def run(tier, seed, model):
                                                  f"{'an exception' if parsed is None else str(parsed)[:80]}"})
             break
     camp.nontrivial.add("latin1-sweep")
+    if not camp.oracle_failures:
+        after_server_events(camp, rng, 40 if tier == "quick" else 1000)
     return camp
 
 
+def after_server_events(camp, rng, n):
+    """sessions on the wire: ServerInit, then desktop-size announcements / updates from the server between the client's
+    operations; the fields of every message the client writes afterwards (update requests with default and explicit
+    geometry, pointer and key events) are those of the state the conversation has reached"""
+    import struct
+    from twisted.internet.testing import StringTransport
+    from vncdotool import client as vclient
+    for i in range(n):
+        cls = rng.choice([vclient.VNCDoToolClient, vclient.VNCDoToolClient, vclient.VMWareClient])
+        c = cls()
+        c.factory = vclient.VNCDoToolFactory()
+        c.factory.nocursor = True
+        tr = StringTransport()
+        c.makeConnection(tr)
+        w, h = rng.choice([8, 640, 1024]), rng.choice([6, 480, 768])
+        c.dataReceived(b"RFB 003.008\n\x01\x01\0\0\0\0" + struct.pack("!HH16sI", w, h, bytes([32, 24, 0, 1, 0, 255, 0, 255, 0, 255, 0, 8, 16, 0, 0, 0]), 0))
+        camp.evaluations += 1
+        camp.count("after-server-events")
+        camp.nontrivial.add(("wire-session", i))
+        for k in range(rng.randrange(2, 8)):
+            r = rng.random()
+            tr.clear()
+            if r < 0.35:
+                w, h = rng.choice([1, 8, 320, 1280, 65535]), rng.choice([1, 6, 200, 1024, 65535])
+                if w * h > 4_000_000:
+                    w, h = 1280, 1024
+                c.dataReceived(b"\0\0\0\x01" + struct.pack("!HHHHi", 0, 0, w, h, -223))
+                continue
+            if r < 0.45:
+                c.dataReceived(b"\x02")
+                continue
+            x, y = rng.randrange(0, w), rng.randrange(0, h)
+            kind = rng.choice(["refresh", "refresh-inc", "request-xy", "request-default", "move", "key"])
+            try:
+                if kind == "refresh":
+                    c.refreshScreen(False)
+                    c.deferred = None
+                    want = [("FbUpdateRequest", 0, 0, 0, w, h)]
+                elif kind == "refresh-inc":
+                    c.refreshScreen(True)
+                    c.deferred = None
+                    want = [("FbUpdateRequest", 1, 0, 0, w, h)]
+                elif kind == "request-xy":
+                    c.framebufferUpdateRequest(x, y)
+                    want = [("FbUpdateRequest", 0, x, y, w - x, h - y)]
+                elif kind == "request-default":
+                    c.framebufferUpdateRequest(incremental=True)
+                    want = [("FbUpdateRequest", 1, 0, 0, w, h)]
+                elif kind == "move":
+                    c.mouseMove(x, y)
+                    want = [("PointerEvent", 0, x, y)]
+                else:
+                    c.keyPress("a")
+                    want = [("KeyEvent", 1, 97), ("KeyEvent", 0, 97)]
+                got = clientops.parse_c2s(tr.value())
+            except Exception as e:  # noqa: BLE001
+                got = f"raised {type(e).__name__}: {e}"
+            if got != want:
+                camp.oracle_failures.append({"kind": "oracle", "property": "C19", "case": {"wire_session": i},
+                                             "what": f"{cls.__name__}, desktop now {w}x{h} (announced by the server), operation {kind} at ({x},{y}): "
+                                                     f"expected {want}, client wrote {got}"})
+                return
+
+
 def replay(payload):
+    if "wire_session" in payload.get("case", {}):
+        return True, "replay: wire session; re-run ./check C19"
     return clientops.replay_case(payload["case"], "C19")
